@@ -6,8 +6,9 @@ import multiprocessing as mp
 import z3
 
 Z3_RLIMIT = int(os.environ.get('VERIF_Z3_RLIMIT', '60000000'))     # deterministic resource budget
-Z3_TIMEOUT_MS = int(os.environ.get('VERIF_Z3_TIMEOUT_MS', '120000'))   # wall-clock safety net only
-CVC5_TIMEOUT_MS = int(os.environ.get('VERIF_CVC5_TIMEOUT_MS', '60000'))
+Z3_TIMEOUT_MS = int(os.environ.get('VERIF_Z3_TIMEOUT_MS', '60000'))   # wall-clock safety net only
+Z3_FIRST_MS = int(os.environ.get('VERIF_Z3_FIRST_MS', '8000'))
+CVC5_TIMEOUT_MS = int(os.environ.get('VERIF_CVC5_TIMEOUT_MS', '20000'))
 
 
 def to_smt2(hyps, goal, logic=None):
@@ -18,10 +19,10 @@ def to_smt2(hyps, goal, logic=None):
     return s.to_smt2()
 
 
-def _z3_check_text(text):
+def _z3_check_text(text, timeout_ms=None):
     s = z3.Solver()
     s.set('rlimit', Z3_RLIMIT)
-    s.set('timeout', Z3_TIMEOUT_MS)
+    s.set('timeout', timeout_ms or Z3_TIMEOUT_MS)
     s.from_string(text)
     t0 = time.time()
     r = s.check()
@@ -68,26 +69,55 @@ def _cvc5_check_text(text, strings=False):
         return 'unknown', time.time() - t0, None, 'cvc5 error: %r' % (e,)
 
 
+def _finite_scope(text):
+    """Re-pose an undecided query with the uninterpreted sort Label interpreted as a finite set of
+    k elements (k = 2..4). A model found this way is a genuine model of the original query (an
+    uninterpreted sort may be interpreted by any non-empty set); `unsat` in finite scope proves nothing."""
+    if '(declare-sort Label 0)' not in text:
+        return None
+    total = 0.0
+    for k in (2, 3, 4):
+        dt = '(declare-datatypes ((Label 0)) ((' + ' '.join(f'(L!{i})' for i in range(k)) + ')))'
+        t2 = text.replace('(declare-sort Label 0)', dt)
+        s = z3.Solver()
+        s.set('timeout', 15000)
+        try:
+            s.from_string(t2)
+        except z3.Z3Exception:
+            return None
+        t0 = time.time()
+        r = s.check()
+        total += time.time() - t0
+        if r == z3.sat:
+            try:
+                model = s.model().sexpr()
+            except Exception:
+                model = '(model unavailable)'
+            return 'sat', total, f'; finite scope |Label|={k}\n' + model, ''
+    return None
+
+
 def _work(job):
+    """z3 (short budget) -> finite-scope model search -> cvc5 -> z3 (long budget)."""
     name, text, strings = job
+    total = 0.0
+    why_all = []
     if strings:
-        r, dt, model, why = _cvc5_check_text(text, True)
-        backend = 'cvc5'
-        if r == 'unknown':
-            r2, dt2, model2, why2 = _z3_check_text(text)
-            if r2 != 'unknown':
-                r, dt, model, why, backend = r2, dt + dt2, model2, why2, 'z3'
+        order = [('cvc5', lambda: _cvc5_check_text(text, True)), ('z3', lambda: _z3_check_text(text, Z3_TIMEOUT_MS))]
     else:
-        r, dt, model, why = _z3_check_text(text)
-        backend = 'z3'
-        if r == 'unknown':
-            r2, dt2, model2, why2 = _cvc5_check_text(text)
-            if r2 != 'unknown':
-                r, dt, model, why, backend = r2, dt + dt2, model2, why2, 'cvc5'
-            else:
-                why = why + ' | ' + why2
-    status = {'unsat': 'proved', 'sat': 'refuted'}.get(r, 'undecided')
-    return name, status, backend, dt, model, why
+        order = [('z3', lambda: _z3_check_text(text, Z3_FIRST_MS)), ('z3-finite-scope', lambda: _finite_scope(text)),
+                 ('cvc5', lambda: _cvc5_check_text(text)), ('z3', lambda: _z3_check_text(text, Z3_TIMEOUT_MS))]
+    for backend, f in order:
+        res = f()
+        if res is None:
+            continue
+        r, dt, model, why = (res + ('',))[:4]
+        total += dt
+        if r in ('sat', 'unsat'):
+            return name, {'unsat': 'proved', 'sat': 'refuted'}[r], backend, total, model, ''
+        if why:
+            why_all.append(f'{backend}: {why}')
+    return name, 'undecided', 'z3+cvc5', total, None, ' | '.join(why_all)
 
 
 def discharge_all(jobs, nproc=16, inline_threshold=3):
